@@ -268,6 +268,23 @@ func rulesC10(cx *Ctx) []Obligation {
 			continue
 		}
 		lp, okk := limb.Definite()
+		if !okk && len(limb.Dir) > 1 && !limb.Mixed {
+			// several window positions (the first chunk at 0, later ones symbolic) joined: accept when every path
+			// reads the element at the same loop variable
+			suffix := ""
+			same := true
+			for _, dp := range limb.Dir {
+				k := strings.LastIndex(dp, "[iv")
+				if k < 0 || (suffix != "" && dp[k:] != suffix) {
+					same = false
+					break
+				}
+				suffix = dp[k:]
+			}
+			if same {
+				lp, okk = limb.Dir[0], true
+			}
+		}
 		if !okk || !strings.HasSuffix(lp, ".Limb") {
 			continue
 		}
@@ -366,6 +383,7 @@ func rulesC10(cx *Ctx) []Obligation {
 	obs = append(obs, ruleToVecChunks(cx)...)
 	// the sponge walks its whole input: chunk and limb windows tile [0, len(input))
 	obs = append(obs, ruleAbsorbTiling(cx, "C10/sponge/absorb-tiling", "poseidon", "(*BN254Chip).HashNoPad")...)
+	obs = append(obs, ruleSpongeOutput(cx)...)
 	return obs
 }
 
@@ -480,12 +498,14 @@ func ruleNoEmptyLimb(cx *Ctx) []Obligation {
 			}
 			n++
 			site := P.Pos(sl.Pos())
-			if !l.Counted || l.Op != token.LSS || stripCopies(sl.Low) != l.IndexVal {
-				return []Obligation{undecided(key, desc, "the limb chunk at "+site+" does not start at the index the enclosing loop tests (cannot show the chunk is non-empty)")}
+			// the chunk starts at the window start of a loop that runs while that start is below len(x): [S, …) with
+			// S < len(x) is never empty
+			tl, why := tileOf(fi, l, sl.X)
+			if tl == nil {
+				return []Obligation{bad(key, desc, "the packing loop does not run while the chunk start is below the length of the chunked slice ("+why+"): a limb may be packed from an empty chunk and overwrite a kept lane with 0", site)}
 			}
-			bx, isLen := lenOfVal(l.Bound)
-			if !isLen || bx != sl.X {
-				return []Obligation{bad(key, desc, "the packing loop is bounded by "+l.Bound.String()+", not by the length of the chunked slice: a limb may be packed from an empty chunk and overwrite a kept lane with 0", site)}
+			if !ipolyEq(tl.start, poly(sl.Low)) {
+				return []Obligation{undecided(key, desc, "the limb chunk at "+site+" does not start at the index the enclosing loop tests (cannot show the chunk is non-empty)")}
 			}
 		}
 	}
